@@ -15,6 +15,7 @@ from __future__ import annotations
 import copy
 import json
 import os
+import re
 import shutil
 
 from vlib import cli, common, cxx, emit, evo, mut, rt, values
@@ -75,11 +76,14 @@ def base_package(key):
     mid = Rec("Mid", [("ma", N("Inner")), ("mb", V(N("Inner"))), ("mc", Opt(N("Inner"))), ("md", P("bool")), ("me", P(r.choice(nums)))])
     kind = En("Kind", [("ka", 0), ("kb", 1), ("kc", 7)], None, False, True)
     gen = Rec("Pair", [("first", TP("T")), ("second", P("uint16"))], ("T",))
+    # records whose fields all have a fixed-width encoding: the generated C++ copies vectors / blocks of them in bulk
+    tri = Rec("Tri", [("x", P("float32")), ("y", P("float32")), ("z", P("float32")), ("w", P("float64"))])
+    tri8 = Rec("Tri8", [("a", P("uint8")), ("b", P("int8")), ("c", P("bool"))])
     top = Rec("Top", [("ta", N("Mid")), ("tb", P("date")), ("tc", N("Kind")), ("td", N("Pair", (P("int32"),))), ("te", Opt(P("string"))), ("tf", P(r.choice(nums))),
                       ("tg", U(((None, P("int32")), (None, P("string"))))), ("tp", N("Pair", (N("Inner"),)))])
     proto = Proto("Evo", [("head", N("Top")), ("count", P(r.choice(nums))), ("label", P("string")), ("mids", S(N("Mid"))), ("maybe", Opt(N("Inner"))),
-                          ("nums", V(P(r.choice(nums)))), ("inners", S(N("Inner"))), ("pairs", S(N("Pair", (N("Mid"),)))), ("tail", P("float32"))])
-    return Pkg("Evo", [inner, mid, kind, gen, top, proto], [], [], "v0")
+                          ("nums", V(P(r.choice(nums)))), ("inners", S(N("Inner"))), ("pairs", S(N("Pair", (N("Mid"),)))), ("tris", V(N("Tri"))), ("trs", S(N("Tri"))), ("tri8s", V(N("Tri8"))), ("trifixed", V(N("Tri"), 2)), ("tail", P("float32"))])
+    return Pkg("Evo", [inner, mid, kind, gen, tri, tri8, top, proto], [], [], "v0")
 
 
 def gen_chain(key, length, per_step):
@@ -400,6 +404,7 @@ def run(ctx):
     for s in res[:5]:
         ctx.sample(s)
     repo_models(ctx, home)
+    fixed_width_record_scenarios(ctx, home)
     cxx.prune_cache()
 
 
@@ -437,6 +442,74 @@ def judge(ctx, codec, proto, want, pr, schema_expected, what, case, kind, altern
         ctx.violation(sig, "%s: %s" % (what, msg), dict(case, stderr=pr.stderr[-800:]))
         return False
     return True
+
+
+def fixed_width_record_scenarios(ctx, home):
+    """a record of fixed-width fields (copied in bulk by the generated C++) that changed since v0: vectors, fixed vectors and streams of it, read
+    with batch capacities 1 and 4 and written for v0"""
+    def pkgs(old_fields, new_fields):
+        def mk(fields, versions, d):
+            return Pkg("Evo", [Rec("Pt", fields), Proto("Evo", [("pts", V(N("Pt"))), ("fixed", V(N("Pt"), 3)), ("s", S(N("Pt"))), ("end", P("int32"))])], [], versions, d)
+        old = mk(old_fields, [], "v0")
+        return old, mk(new_fields, [("v0", old)], "v1")
+    f = lambda n: (n, P("float32"))
+    cases = {"field-removed": ([f("x"), f("y"), f("z")], [f("x"), f("y")]),
+             "field-added": ([f("x"), f("y")], [f("x"), f("y"), f("z")]),
+             "fields-reordered": ([f("x"), f("y"), ("k", P("uint8"))], [("k", P("uint8")), f("y"), f("x")]),
+             "field-widened": ([f("x"), f("y")], [f("x"), ("y", P("float64"))])}
+    for name, (fo, fn) in cases.items():
+        old, new = pkgs(fo, fn)
+        base = os.path.join(ctx.workdir, "cases", "fixedwidth_" + name)
+        shutil.rmtree(base, ignore_errors=True)
+        common.write_tree(base, emit.package_files(new, None, emit.default_outputs("../out_new", python=False, cpp_opts=cxx.cpp_gen_options({"generateNDJson": False}))))
+        common.write_tree(os.path.join(base, "solo"), emit.package_files(old, None, emit.default_outputs("../out_old", python=False, cpp_opts=cxx.cpp_gen_options({"generateNDJson": False}))))
+        p1 = cli.run_cli("generate", os.path.join(base, new.dir), home)
+        p0 = cli.run_cli("generate", os.path.join(base, "solo", old.dir), home)
+        ctx.ev(2)
+        ctx.case(("fixed-width", name))
+        if p1.rc != 0 or p0.rc != 0:
+            ctx.violation("rejected:fixed-width:%s" % name, "documented change of a fixed-width record rejected: %s" % cli.clean(p1.stderr + p0.stderr)[:300], {"case_dir": base})
+            continue
+        lit = lambda path: re.search(r'std::string EvoWriterBase::schema_ = R"\((.*?)\)";', open(path).read(), re.S).group(1)
+        sch_old, sch_new = lit(os.path.join(base, "solo/out_old/cpp/protocols.cc")), lit(os.path.join(base, "out_new/cpp/protocols.cc"))
+        try:
+            exe_new = cxx.build(os.path.join(base, "out_new/cpp"), "plain")
+            exe_old = cxx.build(os.path.join(base, "solo/out_old/cpp"), "plain")
+        except cxx.CompileError as e:
+            ctx.violation("cpp-compile-failed:fixed-width", "%s: generated code does not compile: %s" % (name, str(e)[-400:]), {"case_dir": base})
+            continue
+        co, cn = Codec(old), Codec(new)
+        po, pn = old.find("Evo"), new.find("Evo")
+        bad = False
+        for k in range(3):
+            vo = values.ValueGen(co, rng("C05fw", name, k), quiet_nan_only=True, max_len=5).steps(po, stream_len=[1, 3, 6][k])
+            want = conv_protocol(co, po, cn, pn, vo)
+            data = co.encode_stream(po, sch_old, vo)
+            for bufs in (None, "4"):
+                pr = cxx.run_driver(exe_new, ["Evo", "bin", "bin"] + (["--bufs", bufs] if bufs else []), data, "plain")
+                ctx.ev()
+                ctx.count("fixed-width.read-old")
+                if not judge(ctx, cn, pn, want, pr, sch_new, "fixed-width record, %s: v0 stream read by the newest reader (batch capacity %s)" % (name, bufs or 1), {"case_dir": base}, "read-old"):
+                    bad = True
+            vn = values.ValueGen(cn, rng("C05fww", name, k), quiet_nan_only=True, max_len=5).steps(pn, stream_len=[1, 3, 6][k])
+            try:
+                want_o = [conv_protocol(cn, pn, co, po, vn)]
+            except OutOfRange:
+                continue
+            datan = cn.encode_stream(pn, sch_new, vn)
+            for bufs in (None, "4"):
+                pr = cxx.run_driver(exe_new, ["Evo", "bin", "bin", "--version", "v0"] + (["--bufs", bufs] if bufs else []), datan, "plain")
+                ctx.ev()
+                ctx.count("fixed-width.write-old")
+                if judge(ctx, co, po, want_o, pr, sch_old, "fixed-width record, %s: newest writer targeting v0 (batch capacity %s)" % (name, bufs or 1), {"case_dir": base}, "write-old", alternatives=True):
+                    pr2 = cxx.run_driver(exe_old, ["Evo", "bin", "bin"], pr.out, "plain")
+                    ctx.ev()
+                    if not judge(ctx, co, po, want_o, pr2, sch_old, "fixed-width record, %s: v0's own reader on the newest writer's output" % name, {"case_dir": base}, "old-reader", alternatives=True):
+                        bad = True
+                else:
+                    bad = True
+        if not bad:
+            shutil.rmtree(base, ignore_errors=True)
 
 
 def repo_models(ctx, home):
